@@ -73,6 +73,55 @@ def reduceOp (f : List Int → Option Int) (a : Attrs) (xs : Inputs) (idNoop : B
     let r ← reduce f x axes (a.flag "keepdims" true) (a.flag "noop_with_empty_axes" false)
     pure [r]
 
+def natsAttr (a : Attrs) (n : String) (d : List Nat) : R (List Nat) :=
+  match a.ints? n with
+  | some l => if l.all (· ≥ 0) then pure (l.map Int.toNat) else fail
+  | none => pure d
+
+def poolOp (mode : String) (a : Attrs) (xs : Inputs) : R (List Tensor) := do
+  let x ← inp xs 0
+  match a.ints? "kernel_shape" with
+  | none => fail
+  | some ks =>
+    guardR (ks.all (· ≥ 1))
+    let kernel := ks.map Int.toNat
+    let n := kernel.length
+    let strides ← natsAttr a "strides" (List.replicate n 1)
+    let dils ← natsAttr a "dilations" (List.replicate n 1)
+    let pads ← natsAttr a "pads" (List.replicate (2 * n) 0)
+    let autoPad := a.str "auto_pad" "NOTSET"
+    -- explicit pads together with auto_pad: "pads … cannot be used simultaneously with auto_pad"
+    if autoPad != "NOTSET" && (a.ints? "pads").isSome then ambig
+    else do
+      let r ← pool mode x kernel strides dils pads (a.flag "ceil_mode" false) autoPad
+        (a.flag "count_include_pad" false) (a.int "scale" 1)
+      pure [r]
+
+def globalPoolOp (mode : String) (a : Attrs) (xs : Inputs) : R (List Tensor) := do
+  let x ← inp xs 0
+  guardR (x.rank ≥ 3)
+  let kernel := x.shape.drop 2
+  let n := kernel.length
+  let r ← pool mode x kernel (List.replicate n 1) (List.replicate n 1) (List.replicate (2 * n) 0) false "NOTSET"
+    false (a.int "scale" 1)
+  pure [r]
+
+def convOp (a : Attrs) (xs : Inputs) : R (List Tensor) := do
+  let x ← inp xs 0; let w ← inp xs 1
+  let n := x.rank - 2
+  match a.ints? "kernel_shape" with
+  | some ks => guardR (ks.map Int.toNat == w.shape.drop 2)
+  | none => pure ()
+  let strides ← natsAttr a "strides" (List.replicate n 1)
+  let dils ← natsAttr a "dilations" (List.replicate n 1)
+  let pads ← natsAttr a "pads" (List.replicate (2 * n) 0)
+  let autoPad := a.str "auto_pad" "NOTSET"
+  guardR (a.int "group" 1 ≥ 1)
+  if autoPad != "NOTSET" && (a.ints? "pads").isSome then ambig
+  else do
+    let r ← conv x w (optInp xs 2) strides dils pads (a.int "group" 1).toNat autoPad
+    pure [r]
+
 def runOp (op : String) (a : Attrs) (xs : Inputs) : R (List Tensor) :=
   match op with
   | "Add" => bin (· + ·) xs
@@ -235,6 +284,11 @@ def runOp (op : String) (a : Attrs) (xs : Inputs) : R (List Tensor) :=
     match a.int? "blocksize" with
     | some b => do let r ← depthToSpace x b (a.str "mode" "DCR"); pure [r]
     | none => fail
+  | "MaxPool" => poolOp "max" a xs
+  | "AveragePool" => poolOp "avg" a xs
+  | "GlobalMaxPool" => globalPoolOp "max" a xs
+  | "GlobalAveragePool" => globalPoolOp "avg" a xs
+  | "Conv" => convOp a xs
   | "Shape" => do let x ← inp xs 0; pure [shapeOp x (a.int "start" 0) (a.int? "end")]
   | "Size" => do let x ← inp xs 0; pure [scalar (prod x.shape)]
   | "NonZero" => do let x ← inp xs 0; pure [nonZero x]
